@@ -54,7 +54,7 @@ impl Part for LibPart {
         "ConnectionPool::{pause, wait_paused, resume} on real threads (2-thread tokio runtime): 1..4 tasks enter wait_paused on a paused pool, RESUME follows after a generated busy-wait of 0..3000 µs, with the cfg(pgcat_verif) jitter hook widening the window inside wait_paused to 0/1/3 ms; optionally a second PAUSE/arrival/RESUME round. Oracle: every waiter returns within 1 s of RESUME, and a waiter that arrives after the second PAUSE does not return before the second RESUME. Non-trivial = RESUME issued while at least one task was inside wait_paused (always, by construction) with jitter on or several waiters".into()
     }
     fn cases(&self, tier: Tier) -> u64 {
-        tier.pick(1_500, 60_000)
+        tier.pick(6_000, 120_000)
     }
     fn strategy(&self, _tier: Tier) -> BoxedStrategy<LibCase> {
         (0u32..3000, 1u8..=4, prop_oneof![3 => Just(0u32), 2 => Just(1000u32), 1 => Just(3000u32)], prop::bool::weighted(0.3))
@@ -157,7 +157,7 @@ impl Part for WirePart {
         "two pools (db with 2..5 clients, db2 with one control client), histories of 4..16 steps over {autocommit statement, BEGIN, COMMIT, PAUSE / RESUME for all pools or for db only, a new statement raced against RESUME with a generated 0..4000 µs gap, a newly arriving client}, wait_paused jitter hook 0/1/3 ms, worker_threads 1/2/4. Oracle: a transaction whose first message is sent after the PAUSE reply is not received by any backend until RESUME has been sent (transactions already open keep running and COMMIT), the unpaused pool keeps answering, and after the RESUME reply every held statement completes. Non-trivial = RESUME issued while at least one client was held".into()
     }
     fn cases(&self, tier: Tier) -> u64 {
-        tier.pick(300, 8_000)
+        tier.pick(1_200, 16_000)
     }
     fn strategy(&self, _tier: Tier) -> BoxedStrategy<WireCase> {
         let step = prop_oneof![
